@@ -139,11 +139,16 @@ Definition pass_of (fl : outcome (list ref)) (o : opass) : pass :=
 Definition post_of (o : opass) : option pheap :=
   match o with OIss _ _ p => p | ORefs _ p => p | OChain _ p => p end.
 
-(** an issue of the actors validator is observed through its message text (type
-    names), one of the final-coverage validator through ErrNotFullCoverage *)
+(** What is observed of an issue of the actors validator: StepIdx and whether its
+    error wraps the error of a Resolve call (model kinds 1, 2, 3: observed class 1) or
+    nothing (kind 4, "not protected").  The ranges such an issue names exist in its
+    message text only; the wording of a message is not behaviour, so nothing is read
+    out of it (a reworded message must not change what is observed).  An issue of
+    the final-coverage validator is observed through the fields of ErrNotFullCoverage. *)
+Definition proj_vap (v : vissue) : oissue := (vi_step v, (if vi_kind v =? 4 then 4 else 1), [], []).
 Definition proj_chain (x : vissue + Z * Z) : oissue + Z * Z :=
   match x with
-  | inl v => inl (proj_issue (if vi_kind v <=? 4 then proj_tn else proj_id) v)
+  | inl v => inl (if vi_kind v <=? 4 then proj_vap v else proj_issue proj_id v)
   | inr p => inr p
   end.
 Definition centry_eqb (a b : oissue + Z * Z) : bool :=
@@ -156,7 +161,7 @@ Definition centry_eqb (a b : oissue + Z * Z) : bool :=
 Definition pres_match (o : opass) (r : pres) : bool :=
   match o, r with
   | OIss k ob _, RIss m =>
-      obs_match (list_eqb oissue_eqb) ob (map_out (map (proj_issue (match k with O => proj_tn | _ => proj_id end))) m)
+      obs_match (list_eqb oissue_eqb) ob (map_out (map (match k with O => proj_vap | _ => proj_issue proj_id end)) m)
   | ORefs ob _, RRefs m => obs_match (list_eqb oref_eqb) ob (map_out (map proj_id) m)
   | OChain ob _, RChain m => obs_match (list_eqb centry_eqb) ob (map_out (map proj_chain) m)
   | _, _ => false
